@@ -13,6 +13,19 @@ EIG_NOTE = ('the contracts of scipy eigsh/eigs/eigh/eig and of sparse.remove_nul
             'ordering, positivity/ascending order of computed values and sparse/dense agreement are not decidable by contracts and are not claimed')
 
 CHECKS = {
+ 'C11': dict(
+    category='proof',
+    text=('cfuvw, cfwx, cfwy and cfstrain are extracted from clt_bardell_field.pyx and executed symbolically for a generic evaluation point and symbolic '
+          'series orders: the accumulated values are proved equal to the Ritz series / the Donnell relations (sums over the series as canonical sum terms, '
+          'linear and quadratic parts, flat and cylindrical branch); Panel.uvw/strain/stress and PanelAssembly.uvw/strain/stress are executed symbolically from '
+          'the real source over point-set shapes and option combinations: every reported entry is the field of the requested point, in order and shape, '
+          'computed from the caller\'s amplitude vector (for assemblies: the panel\'s own slice) and the panel definition, with NLterms forwarded, and the '
+          'stress resultants are the laminate matrix times exactly those strains.'),
+    design_ref='DESIGN.md section 4 (C11)',
+    note=('real arithmetic; numpy reshape/ravel/meshgrid run natively on symbolic object arrays (A4); the padding / prange chunking of fuvw and fstrain and the '
+          'w-only field module are NOT yet under contract (thread-count independence is therefore not claimed); Python-layer point sets are bounded (3 and 6 points); '
+          '6 known findings (quadratic strain terms), 1 fixed defect (NLterms not forwarded by Panel.stress)'),
+    technique='contracts + symbolic execution (generic-iteration loop schema with sum terms); exact normal form'),
  'C13': dict(
     category='proof',
     text=('PanelAssembly.__init__/get_size/calc_k0/calc_kG0/calc_kM/calc_kT/calc_fint/calc_fext and StiffPanelBay.get_size/calc_k0/calc_kG0/calc_kM are '
